@@ -121,6 +121,7 @@ pub fn dispatch(p: &[String]) -> String {
                 _ => "{\"error\": \"unknown opcode\"}".to_string(),
             }
         }
+        "typed_request" => generated::typed_request(&p[1], p[2].parse::<u64>().unwrap_or(0) as u32),
         "storage_step" => storage_step(&p[1], if p.len() > 2 { &p[2] } else { "-" }),
         "lift_probe" => generated::lift_probe(p[1].parse::<u32>().unwrap_or(0)),
         "disas_operand" => generated::disas_operand(&p[1], p[2].parse::<u64>().unwrap_or(0)),
